@@ -462,8 +462,10 @@ std::optional<int64_t> CgroupContext::getPgScanCumulative(
   if (const auto& memstat = memory_stat(err)) {
     if (auto pos = memstat->find(kPgScan); pos != memstat->end()) {
       return std::make_optional(pos->second);
-    } else {
-      throw std::runtime_error("Bad memory.stat format: missing pgscan entry");
+    } else if (err) {
+      // memory.stat without a pgscan entry (older kernel, half-read file):
+      // the counter is unavailable, which is not a reason to take oomd down
+      *err = Error::INVALID_CGROUP;
     }
   }
   return std::nullopt;
